@@ -16,7 +16,7 @@
 (* ways realistic code changes would; they exist so that spec/neg configs  *)
 (* can show that every invariant is able to fail (non-vacuity).            *)
 (***************************************************************************)
-EXTENDS Integers, Sequences, FiniteSets
+EXTENDS RuxLRU
 
 CONSTANTS Keys,          \* cache keys (strings "method+path" in the code)
           Vals,          \* values (route copies; small integers here)
@@ -30,19 +30,7 @@ VARIABLES cap, lru, list, hmap, last
 vars == <<cap, lru, list, hmap, last>>
 
 -----------------------------------------------------------------------------
-(* declarative LRU map *)
-Entry(k, v)   == [k |-> k, v |-> v]
-KeysOf(l)     == [i \in 1..Len(l) |-> l[i].k]
-KeySet(l)     == {l[i].k : i \in 1..Len(l)}
-Has(l, k)     == \E i \in 1..Len(l) : l[i].k = k
-Pos(l, k)     == CHOOSE i \in 1..Len(l) : l[i].k = k
-ValOf(l, k)   == l[Pos(l, k)].v
-Without(l, k) == SelectSeq(l, LAMBDA e : e.k # k)
-Take(l, n)    == SubSeq(l, 1, IF Len(l) < n THEN Len(l) ELSE n)
-
-LSet(l, c, k, v) == Take(<<Entry(k, v)>> \o Without(l, k), c)
-LGet(l, k)       == IF Has(l, k) THEN <<l[Pos(l, k)]>> \o Without(l, k) ELSE l
-LDel(l, k)       == Without(l, k)
+(* declarative LRU map: operators LSet / LGet / LDel / Has / ValOf ... are defined in RuxLRU *)
 
 -----------------------------------------------------------------------------
 (* operational mirror of route_cache.go *)
